@@ -54,6 +54,7 @@ type Obj struct {
 	Labels, Annots                  map[string]string
 	Owners                          []Ref
 	NS                              string // namespace; "" = the default namespace ns
+	Spec                            map[string]interface{} `json:",omitempty"` // spec of the object (PyTorchJob replica specs); nil = empty
 }
 
 // Pod is a sibling pod.
@@ -130,9 +131,13 @@ func (o Obj) unstructured() *unstructured.Unstructured {
 	if len(o.Owners) > 0 {
 		md["ownerReferences"] = refs(o.Owners)
 	}
+	spec := map[string]interface{}{}
+	if o.Spec != nil {
+		spec = runtime.DeepCopyJSON(o.Spec)
+	}
 	return &unstructured.Unstructured{Object: map[string]interface{}{
 		"apiVersion": apiVersion(o.Group, o.Version), "kind": o.Kind, "metadata": md,
-		"spec": map[string]interface{}{},
+		"spec": spec,
 	}}
 }
 
